@@ -13,7 +13,7 @@ from mc.refs import relmodel, schemas
 from mc.props import c02
 
 NEEDS_BRIDGEPOINT = False
-BUDGET_S = {'quick': 150, 'thorough': 2400}
+BUDGET_S = {'quick': 3600, 'thorough': 14400}
 ASSUMPTIONS = [
     'attribute alphabets: N in {0,1}, S in {"a","b"} (ties exist); pools capped per class; closure under the caps',
     'query menu: all sequences of <= 2 (quick) / 3 (thorough) operators; navigation chains of length <= 3 (quick) / 4 (thorough)',
